@@ -4,6 +4,7 @@ CONSTANTS
   MaxLen = 0
   SeqLen = 0
   ConcLen = 1
+  GzLen = 0
   Symbols = {1, 2}
   Mutant = "put_before_last_in"
 INVARIANTS TypeOK LinesPrefix LinesExact NoForeignBytes OKOnlyAfterAllLines
